@@ -119,8 +119,16 @@ def gen_site(rng: random.Random, scratch: str, name_classes=("plain", "spaces", 
         z.file("inner.txt", "inside the archive\n")
         z.file("sub/deep.txt", "deep\n")
         z.file("sub/page.html", trees.html_doc("Zipped page"))
+        # members of the kinds that only real-file handlers may act on
+        zmbox = trees.make_mbox(["Zipped subject"], scratch)
+        z.file("mail.mbox", zmbox)
+        z.subtree("md", trees.maildir_tree(["Zipped maildir"], where="cur"))
+        z.file("run.sh", trees.script_echo_env(), mode=0o755)
         zdata = z.to_zip()
         t.file("arch.zip", zdata)
+        m.add(b"/arch.zip/mail.mbox", "doc", zmbox, needs_full=True, tags=["zipmember", "zip-mbox"])
+        m.add(b"/arch.zip/md", "menu", needs_full=True, tags=["zipdir", "zip-maildir"])
+        m.add(b"/arch.zip/run.sh", "doc", trees.script_echo_env(), needs_full=True, tags=["zipmember", "zip-script"])
         m.add(b"/arch.zip", "menu", needs_full=True, tags=["zip"])
         m.add(b"/arch.zip/inner.txt", "doc", b"inside the archive\n", needs_full=True,
               mime="text/plain", tags=["zipmember"])
